@@ -513,7 +513,7 @@ package protocol
 //@ // that the metadata AEAD tag authenticates; a server returns a segment only after
 //@ // some cipher block decrypted its metadata, and never a segment flagged as replay.
 //@ func (u *PacketUnderlay) readOneSegment() (seg *segment, addr net.Addr, err error)
-//@   property C05 C02 C06
+//@   property C05 C02 C06 C10
 //@   mode int
 //@   partial
 //@   posts_only
